@@ -131,6 +131,9 @@ func (p *polling) onDataRequest(ctx *types.HttpContext) {
 
 	if isBinary && p.Protocol() == 4 {
 		p.OnError("invalid content", nil)
+		// the request itself still has to be answered, or its handler waits forever
+		ctx.SetStatusCode(http.StatusBadRequest)
+		ctx.Write(nil)
 		return
 	}
 
